@@ -56,6 +56,10 @@ type caseSpec struct {
 	Victims   int  `json:"victims,omitempty"`     // how many of them are removed / cut / replaced during the stream
 	Slow      bool `json:"slow_reader,omitempty"` // an additional raw reader that drains slowly (widens the broadcast loop)
 	MaxEvents int  `json:"max_events,omitempty"`
+	// same-id re-handshake family
+	Rehs        int    `json:"rehandshakes,omitempty"`                  // re-handshakes in a row under the reader's own id
+	OldClose    string `json:"old_connection_closed_by_peer,omitempty"` // before | after (the new activation) | never
+	PostEntries int    `json:"entries_after_each_rehandshake,omitempty"`
 }
 
 type caseResult struct {
@@ -74,6 +78,8 @@ type caseResult struct {
 	ReaderLog   []string
 	Events      int // multi-reader family: remove / cut / re-handshake actions performed
 	WriterLog   []string
+	RehsDone    int // same-id re-handshake family: re-handshakes whose activation was observed
+	RehsChecked int // ... entries queued after those activations and checked against the new connection
 }
 
 type viol struct {
@@ -136,6 +142,16 @@ func genCases(c *vlib.Ctx) []caseSpec {
 		sp := caseSpec{ID: id, Mode: "multi", Producers: 1 + mr.IntN(4), Entries: 500 + mr.IntN(500), CPInterval: 1 + mr.IntN(50),
 			BufSize: 10000, MaxPayload: []int{64, 256, 512}[mr.IntN(3)], Seed: mr.Uint64(),
 			Readers: readers, Victims: victims, Slow: i%3 != 2, MaxEvents: 400}
+		out = append(out, sp)
+		id++
+	}
+	// same-id re-handshake family: own PRNG stream again
+	rr := c.Rand("rehs-cases")
+	nr := c.N(27, 405)
+	for i := 0; i < nr; i++ {
+		sp := caseSpec{ID: id, Mode: "rehs", Producers: 1 + (i+i/8)%8, CPInterval: 1 + rr.IntN(50),
+			BufSize: 10000, MaxPayload: []int{64, 256, 512}[rr.IntN(3)], Seed: rr.Uint64(),
+			Rehs: 1 + (i/3)%3, OldClose: []string{"before", "after", "never"}[i%3], PostEntries: 200 + rr.IntN(400)}
 		out = append(out, sp)
 		id++
 	}
@@ -215,6 +231,9 @@ func installWidening() {
 func runCase(sp caseSpec) (res caseResult) {
 	if sp.Mode == "multi" {
 		return runMultiCase(sp)
+	}
+	if sp.Mode == "rehs" {
+		return runRehsCase(sp)
 	}
 	res.Spec = sp
 	per := genPayloads(sp)
@@ -667,7 +686,8 @@ func checkC24(c *vlib.Ctx) {
 		"checkpoint interval 1-50, sender buffer 64/512/10000, two thirds with delay rules at repl.sender.after_seq; loopback proxy forwards untouched. " +
 		"adversary cases: 400 entries, one scripted wire attack (15 kinds: flip payload/raw/length, bump sequence, strip tag, duplicate now/later, withhold (+forged / +replayed checkpoint), swap, splice from a second reader's session, replay/duplicate checkpoint) at a random entry index. " +
 		"multi-reader cases: 2-5 real Receivers (plus, in two thirds, a raw reader draining ~150us per frame through 4 KiB socket buffers) on one Sender, 500-1000 entries from 1-4 producers; one or two of the readers are repeatedly removed (Sender.RemoveReader), cut (connection closed) or replaced by a new handshake under the same id while the stream runs (up to 400 events, they reconnect after 3 ms); an end-of-stream sentinel entry closes the run. " +
-		"distinct non-trivial = honest case with >=100 entries applied or a verdict, adversary case whose attack reached a live connection, multi-reader case with at least one disturbance event")
+		"same-id re-handshake cases: one real Receiver behind the proxy, 1-8 writer goroutines append continuously; 1-3 times in a row the reader's connection is made half-open at the proxy (reader's end closed, writer's end left open and told nothing), so the Receiver's own reconnect performs the real handshake under the same id while the writer still holds the previous connection; the peer closes the writer's end of the abandoned connection before the new activation, after it, or never; after each activation the writers append 200-600 more entries and a sentinel. " +
+		"distinct non-trivial = honest case with >=100 entries applied or a verdict, adversary case whose attack reached a live connection, multi-reader case with at least one disturbance event, re-handshake case with at least one observed activation")
 	c.Assume("generator ground truth: the replicated payload of AppendRawWithMeta is [0x01][len16][db][payload], of AppendRaw the payload itself")
 	c.Assume("the harness acceptor reproduces Coordinator.handleReplicateSync/AcceptReplicationConnection (HMAC + nonce check, PrepareReader, ack, ActivateReader); the hook wiring is copied from Coordinator.StartReplication")
 	c.Assume("the reader is sequential per connection: entries applied on a connection are matched to the first entry frames of the byte stream the proxy wrote to it (checked, mismatch is reported)")
@@ -691,6 +711,16 @@ func checkC24(c *vlib.Ctx) {
 		}
 		cases = sel
 	}
+	onlyMode := os.Getenv("VERIF_C24_MODE") // debugging aid: run one family only (honest | adversary | multi | rehs)
+	if onlyMode != "" {
+		var sel []caseSpec
+		for _, sp := range cases {
+			if sp.Mode == onlyMode {
+				sel = append(sel, sp)
+			}
+		}
+		cases = sel
+	}
 	results := make([]caseResult, len(cases))
 	var wg sync.WaitGroup
 	sem := make(chan struct{}, 6)
@@ -709,14 +739,23 @@ func checkC24(c *vlib.Ctx) {
 		report(c, r)
 	}
 	c.Count("hook_after_seq_hits", verifhook.Hits(hookAfterSeq))
+	c.Extra("rehandshake_same_id_cases", rehsOutcomes)
 	pr := probeReplaceSameID()
 	c.Extra("probe_rehandshake_same_id", pr)
 	if b, _ := pr["new_connection_removed_by_writer"].(bool); b {
 		c.Count("probe_rehandshake_same_id_new_connection_removed_by_writer", 1)
 	}
+	if onlyMode != "" {
+		c.Floor(1)
+		return
+	}
 	raceSubRun(c)
-	c.Floor(c.N(80, 1500))
+	c.Floor(c.N(100, 1800))
 }
+
+// rehsOutcomes: one line per same-id re-handshake case for the evidence (report is
+// called sequentially).
+var rehsOutcomes []map[string]any
 
 func report(c *vlib.Ctx, r caseResult) {
 	c.Eval()
@@ -740,6 +779,23 @@ func report(c *vlib.Ctx, r caseResult) {
 		if r.RecvErrors > 0 || r.Sessions > 1 {
 			c.Count("honest_cases_with_connection_drop", 1)
 		}
+	} else if sp.Mode == "rehs" {
+		c.Count("rehs_rehandshakes_exercised", int64(r.RehsDone))
+		c.Count("rehs_entries_checked_after_rehandshake", int64(r.RehsChecked))
+		c.Count("rehs_old_connection_closed_"+sp.OldClose, 1)
+		if r.Landed {
+			c.Nontrivial(fmt.Sprintf("rehs/%d/%d/%s/%d/%d", sp.Producers, sp.Rehs, sp.OldClose, sp.PostEntries, sp.Seed))
+		}
+		out := "held"
+		for _, v := range r.Violations {
+			if v.Sig == sigRehsDrop {
+				c.Count("rehs_new_connections_dropped_by_writer", 1)
+			}
+			out = v.Sig
+		}
+		rehsOutcomes = append(rehsOutcomes, map[string]any{"case": sp.ID, "writers": sp.Producers, "rehandshakes_planned": sp.Rehs,
+			"rehandshakes_exercised": r.RehsDone, "old_connection_closed_by_peer": sp.OldClose, "entries_checked": r.RehsChecked,
+			"connections": r.Sessions, "outcome": out})
 	} else if sp.Mode == "multi" {
 		c.Count("multi_reader_connections", int64(r.Sessions)) // 1 per untouched reader + 1 per re-attachment of a disturbed one
 		c.Count("multi_reader_disturbance_events", int64(r.Events))
